@@ -22,6 +22,26 @@ from vlib import common, names
 
 T3_OPS = {"tm", "eq"}
 
+EXPECT_TAKEN = ("{ if _, exists := tm.funcToTyps[funcName]; exists { return true } if _, isreserved := tm.reserved[funcName]; "
+                "isreserved { return true } return token.IsKeyword(funcName) || types.Universe.Lookup(funcName) != nil }")
+
+
+def facts(rep):
+    """T4: the word list of G.reservedWords against go/token + go/types of the toolchain; the shape of typesMap.taken."""
+    import subprocess
+    gen = common.tool_path("gennames")
+    p = common.sh([gen, "-mode", "facts", "-repo", common.REPO], check=True, timeout=120)
+    f = json.loads(p.stdout)
+    pm = subprocess.run([common.driver_path()], input="op 1 reservedwords\n", stdout=subprocess.PIPE, text=True)
+    lean = pm.stdout.strip().split("model=", 1)[1].split(",")
+    rep.cov["t4"] = {"reserved_words_toolchain": len(f["reserved_words"]), "facts_checked": 2}
+    if lean != f["reserved_words"]:
+        rep.violation("T4 fact changed: keywords + universe names of the Go toolchain are %s, G.reservedWordStrings has %s" % (
+            sorted(set(f["reserved_words"]) - set(lean)), sorted(set(lean) - set(f["reserved_words"]))),
+            {"fact": "G.reservedWordStrings", "toolchain": f["reserved_words"], "lean": lean}, False)
+    if f.get("taken_source") != EXPECT_TAKEN:
+        rep.violation("T4 fact changed: typesMap.taken is now `%s`" % f.get("taken_source"), {"fact": "typesMap.taken", "source": f.get("taken_source"), "model": EXPECT_TAKEN}, False)
+
 
 def run(rep):
     rep.cov["rule"] = ("T3: all op sequences of length <= 3 (quick) / 4 (thorough) over {set x 3 names x 3 type lists, get, generating} "
@@ -47,6 +67,7 @@ def run(rep):
     common.proof_part(rep, "C11", thorough_checker=(rep.tier == "thorough"))
     rep.cov["trusted_base"] += ["go/types and go/parser for the read-back of the rewritten packages",
                                 "harness-t3/cmd/tmdrive builds go/types types from the wire syntax"]
+    facts(rep)
     names.t3(rep, T3_OPS, "typesMap operation sequences")
 
     spec_bad, corr_bad = [], []
